@@ -99,6 +99,18 @@ pub fn run() -> Report {
             let all = chain.mblocks();
             // every other case spread over two blk files (height order leaves a file and returns to the adjacent block)
             let mut world = World::laid_out(btc, &chain.blocks, c.base, if c.n >= 10_000 { 0 } else { i });
+            // a partial directory: only the blk files that hold the blocks of the range were kept (copied from a node, or the
+            // older ones pruned away by hand); the index still describes the whole chain. Nothing below --start is ever read.
+            if c.n < 10_000 && c.start.map(|s| s > c.base).unwrap_or(false) && i % 5 == 4 {
+                let s = c.start.unwrap();
+                world = World::new(btc);
+                for (k, b) in chain.blocks.iter().enumerate() {
+                    let h = c.base + k as u64;
+                    world.add_block(if h < s { 50 } else { (k % 2) as u64 }, h, b);
+                }
+                world.files.remove(&50);
+                acc.count("partial-directory:blk-file-of-the-blocks-below-start-missing", 1);
+            }
             let mut stale_seed: Option<&str> = None;
             // a once-active, reorganised-away block (fully validated, with data) at exactly the height --end names: which chain is
             // the active one is decided by the real tip, not by what is left after the range was cut
@@ -154,6 +166,12 @@ pub fn run() -> Report {
             match i % 4 {
                 2 => spec.env.push(("VERIF_CLOCK_STEP".into(), "4000000000".into())),
                 3 => spec.env.push(("VERIF_CLOCK_STEP".into(), "0".into())),
+                _ => {}
+            }
+            // ... nor is the calendar date: a clock behind the chain's timestamps (at the epoch, before block 1, inside the chain)
+            match i % 9 {
+                4 => spec.env.push(("VERIF_REALTIME".into(), "1300000000".into())),
+                7 => spec.env.push(("VERIF_REALTIME".into(), if i % 2 == 0 { "0".into() } else { "1599995000".to_string() })),
                 _ => {}
             }
             if c.n >= 10_000 {
@@ -257,6 +275,7 @@ pub fn run() -> Report {
     }
     // slice law (differential): csvdump/opreturn of a range equals the slice of the whole-chain output
     slice_law(&mut rep, &root, max_t.min(4));
+    interrupted_runs(&mut rep, &root, "C02", &["csvdump", "opreturn", "unspentcsvdump", "balances"]);
     match long_index.join() {
         Ok(r) => rep.merge(r),
         Err(_) => rep.machinery("long-index case panicked".into()),
@@ -303,4 +322,94 @@ fn slice_law(rep: &mut Report, root: &std::path::Path, t: u64) {
         }
     }
     rep.count("slice-law-pairs", (t + 1) * (t + 2) / 2);
+}
+
+/// Asynchronous events: a signal (SIGINT / SIGTERM / SIGHUP / SIGUSR1) is raised immediately before EVERY read of a blk file, i.e.
+/// at every point of the block loop an environment could interrupt. Whatever the program does with it is its own business
+/// (HEAD: the default disposition ends the process) - but if the run then ends with exit status 0 and leaves final-named
+/// files, they say which range they cover (their names carry s and the last processed height) and must hold exactly the
+/// model's output for that range: no block beyond it, every block in it. Shared by C02 (csvdump, opreturn), C07 (unspent)
+/// and C08 (balances). Runs that end with a non-zero status or by the signal are not judged here (C10 judges what they leave).
+pub fn interrupted_runs(rep: &mut Report, root: &std::path::Path, prop: &str, cbs: &[&'static str]) {
+    let btc = coin("bitcoin");
+    let chain = dependent_chain(btc, 0, 7);
+    let all = chain.mblocks();
+    let mut world = World::new(btc);
+    for (i, b) in chain.blocks.iter().enumerate() {
+        world.add_block(i as u64, i as u64, b); // one block per file: every block has reads of its own
+    }
+    let wk = Worker::new(root, 940);
+    if let Err(m) = wk.materialise(&world) {
+        return rep.machinery(m);
+    }
+    let mut plans: Vec<(&'static str, usize, &'static str)> = Vec::new();
+    for cb in cbs {
+        let mut s = RunSpec::new("bitcoin", cb);
+        s.env.push(("FAULTFS_RPREFIX".into(), format!("{}/blk", wk.data().display())));
+        s.env.push(("FAULTFS_LOG".into(), wk.dir.join("shim.log").display().to_string()));
+        let _ = std::fs::remove_file(wk.dir.join("shim.log"));
+        let r = wk.run(&s);
+        let n = std::fs::read_to_string(wk.dir.join("shim.log")).unwrap_or_default().lines().filter(|l| l.starts_with("R ")).count();
+        if !r.ok() || n == 0 {
+            return rep.machinery(format!("interrupted runs: numbering run of {} failed (exit {:?}, {} reads)", cb, r.code, n));
+        }
+        rep.count(&format!("interrupted-runs:blk-reads:{}", cb), n as u64);
+        for k in 0..n {
+            for sg in ["SIGINT", "SIGTERM", "SIGHUP", "SIGUSR1"] {
+                plans.push((cb, k, sg));
+            }
+        }
+    }
+    drop(wk);
+    let parts = par_fold(
+        &plans,
+        || Report::new(prop, "e1"),
+        |w, _i, (cb, k, sg), acc| {
+            let wk = Worker::new(root, 941 + w);
+            if !wk.data().exists() {
+                if let Err(m) = wk.materialise(&world) {
+                    return acc.machinery(m);
+                }
+            }
+            let mut spec = RunSpec::new("bitcoin", cb);
+            spec.env.push(("FAULTFS_RPREFIX".into(), format!("{}/blk", wk.data().display())));
+            spec.env.push(("FAULTFS_RPLAN".into(), format!("{}:{}", k, sg)));
+            let r = wk.run(&spec);
+            acc.states += 1;
+            acc.transitions += 1;
+            acc.nontrivial.insert(h8(format!("intr{}{}{}", cb, k, sg).as_bytes()));
+            acc.count("interrupted-runs", 1);
+            if r.code != Some(0) {
+                acc.count("interrupted-runs:ended-by-the-signal-or-failed(not judged here)", 1);
+                return;
+            }
+            acc.count("interrupted-runs:exit-0", 1);
+            // the range the run says it covered
+            let named: Option<(u64, u64)> = r.files.keys().filter(|n| n.ends_with(".csv")).find_map(|n| {
+                let stem = n.trim_end_matches(".csv");
+                let mut it = stem.rsplitn(3, '-');
+                let e = it.next()?.parse().ok()?;
+                let s = it.next()?.parse().ok()?;
+                Some((s, e))
+            });
+            let (s, e) = match (named, r.declared_end()) {
+                (Some(se), _) => se,
+                (None, Some(e)) => (r.declared_start().unwrap_or(0), e),
+                _ => (0, 6),
+            };
+            let range = in_range(&all, s, e.min(6));
+            let bad = match *cb {
+                "csvdump" => check_csvdump(&r, btc, &range, s, e),
+                "unspentcsvdump" => check_unspent(&r, btc, &range, s, e),
+                "balances" => check_balances(&r, btc, &range, s, e),
+                _ => check_opreturn(&r, btc, &range),
+            };
+            if let Some((sig, detail)) = bad.into_iter().next() {
+                acc.disagree(&format!("interrupted-run:{}", sig), format!("{} {} before blk read #{}: exit 0, output names the range {}..{}: {}", cb, sg, k, s, e, detail.chars().take(500).collect::<String>()), replay_case(&world, &spec, json!({"must": "whatever carries a final name holds exactly the model's output for the range in its name"}), &r, &wk.dir));
+            }
+        },
+    );
+    for p in parts {
+        rep.merge(p);
+    }
 }
